@@ -36,7 +36,7 @@
    whole negative millisecond shares its stamp with the 1 ms below it; `stamp_determines` is stated with that
    value.  The form with the mtime rounded DOWN needs `preepoch_whole_ms` (C12_same_result_rounded_down);
    C12_epoch_bucket shows why. *)
-From FV Require Import Base CacheModel CacheProofs CacheProofs2 CacheProofs3.
+From FV Require Import Base CacheModel CacheProofs CacheProofs2 CacheProofs3 CacheProofs4.
 Open Scope N_scope.
 
 (* Invariant over unbounded histories: after any prefix h1 of the history, every entry
@@ -142,6 +142,28 @@ Lemma C12_KC4_witness :
   cached_answer Hx Tid hRet 0 None (probe 1 0 3) = RHash (Hx 0 [97; 98; 99]) /\
   plain_answer Hx Tid hRet 0 None (probe 1 0 3) = RHash (Hx 0 [97; 98; 100]).
 Proof. exact returning_stamp_stale. Qed.
+
+(* The stored stamp on the machine type.  cache.rs computes `as_millis() as u64` (at or after the epoch) or
+   `(as_millis() as u64).wrapping_neg()` (before it); the model keeps the signed millisecond count code_ms.  For every mtime
+   within 2^63 ms of the epoch the u64, read as a two's complement number, IS code_ms, and two mtimes get the same u64 stamp iff
+   they agree in code_ms: the validation `stamp equal /\ length equal` of HashCache::get compares exactly what the model
+   compares (a stamp that mixes units - seconds * 1000 + microseconds - does not: CacheProofs4.mixed_units_not_injective). *)
+Theorem C12_stamp_u64_is_code_ms :
+  forall mt, in_range mt -> signed64 (stamp_u64 mt) = code_ms mt.
+Proof. exact stamp_u64_signed. Qed.
+Print Assumptions C12_stamp_u64_is_code_ms.
+
+Theorem C12_stamp_u64_injective :
+  forall a b, in_range a -> in_range b -> (stamp_u64 a = stamp_u64 b <-> code_ms a = code_ms b).
+Proof. exact stamp_u64_injective. Qed.
+Print Assumptions C12_stamp_u64_injective.
+
+Example C12_stamp_u64_inhabited :
+  in_range 1700000000123456789 /\ in_range (-1500000) /\
+  stamp_u64 1700000000123456789 = 1700000000123%Z /\
+  stamp_u64 (-1500000) = 18446744073709551615%Z /\ code_ms (-1500000) = (-1)%Z /\
+  stamp_u64 (-999999) = 0%Z /\ stamp_u64 999999 = 0%Z.
+Proof. exact stamp_u64_examples. Qed.
 
 (* run; touch; run; rewrite with the first mtime; run — safe, because put overwrote the entry in the touched state *)
 Example C12_returning_stamp_refreshed :
